@@ -24,6 +24,7 @@ class Opts:
         self.content_fn = None      # (rng, index, depth) -> list[str] content lines or None for default
         self.max_blocks = 12
         self.final_newline = True
+        self.mltag = True           # layout "multi": some start tags have their attributes spread over several (decorated, indented) lines
         self.bom = False            # file starts with a UTF-8 byte order mark (3 bytes that count in line 1's byte columns)
         for k, v in kw.items():
             assert hasattr(self, k), k
@@ -43,6 +44,20 @@ def _clean(text, form):
     for bad in form.forbid:
         text = text.replace(bad, " ")
     return text
+
+
+def _spread(r, src, attrs, sep):
+    if sep.strip() not in ("", "*"):
+        return src      # banner style (` ** `): only the first star is decoration, the second would end up inside the tag
+    """`<block a="1" b>` -> the same tag with a line break (sep = eol + indentation + decoration) in front of every attribute.
+    Only done when the plain rendering can be recognised in src (no escapes), else src is returned unchanged."""
+    for q in ('"', "'"):
+        parts = [fbm.render_attrs([(k, (v if v != "" else None))], q) for k, v in attrs.items()]
+        alt = [fbm.render_attrs([(k, v)], q) for k, v in attrs.items()]
+        for ps in (parts, alt):
+            if src == "<block " + " ".join(ps) + ">":
+                return "<block" + sep + sep.join(ps) + (sep if r.random() < 0.3 else "") + ">"
+    return src
 
 
 def _prose(r, o, form):
@@ -94,12 +109,16 @@ class _G:
         if not self.lang["decoys"]:
             return self.code(0)
         self.ndecoys += 1
-        d = self.r.choice(self.lang["decoys"])
+        # tree-sitter-c/cpp do not know a backslash-CRLF line continuation inside a string literal (recorded finding
+        # C03/c-crlf-continuation, own witness): that decoy is only used in LF files
+        d = self.r.choice([x for x in self.lang["decoys"] if not (self.o.eol == "\r\n" and "\\\n" in x)] or self.lang["decoys"])
         n = d.count("%d")
-        text = d % ((self.ndecoys,) * n)
+        text = (d % ((self.ndecoys,) * n)).replace("\n", self.o.eol)      # multi-line decoys use the file's line terminator
         self.meta["decoys"] += 1
         # record decoy tags (not in comments) so that truth knows they exist
+        l0 = self.b.line
         self.b.line_text(text)
+        self.meta.setdefault("decoy_spans", []).append((l0, self.b.line - 1))
 
     def attrs(self, idx):
         if self.o.attrs_fn:
@@ -127,7 +146,10 @@ class _G:
         b.open_comment(form)
         tags = []
         if form.kind == "block" and layout == "multi":
-            # tag on line k of an n-line comment
+            # tag on line k of an n-line comment; continuation lines may be indented (spaces or tabs) in front of their decoration
+            clead = r.choice(["", "", "", " ", "\t", "    ", "\t\t"]) if self.lang["indent"] else ""
+            _nl = b.comment_nl
+            b.comment_nl = lambda: _nl(clead)
             before = r.randint(0, 2)
             after = r.randint(0, 2)
             if before == 0 and after == 0:
@@ -144,6 +166,8 @@ class _G:
             for i, (kind, src, attrs) in enumerate(pieces):
                 if i:
                     b.raw(" " + _prose(r, o, form) + " ")
+                if kind == "start" and o.mltag and attrs and r.random() < 0.35:
+                    src = _spread(r, src, attrs, b.eol + clead + form.cont)
                 tags.append(b.tag(kind, src, attrs))
             for _ in range(after):
                 b.comment_nl()
@@ -152,6 +176,7 @@ class _G:
                 b.comment_nl() if r.random() < 0.5 else b.raw(" ")
             else:
                 b.raw(" ")
+            del b.comment_nl
         else:
             pre = _prose(r, o, form)
             b.raw(" " + (pre + " " if pre else "")) if form.family != "md" else b.raw(pre + " " if pre else "")
